@@ -85,6 +85,40 @@ def total_alpha_spec(n, timeout, first=None):
                 meta={"kind": "total"})
 
 
+# token alphabets: dispatch macros are several characters long, so character alphabets of length <= 3 never form them
+TOKENS_DISPATCH = ["#(", "% ", "#'", "#_", "#{", "{", "}", "(", ")", "[", "]", "#:q{", ":k ", "a ", "1 ", "##Inf ", "##", "#uuid ", '"x" ', "\\a ",
+                   "#py ", "^", "@", "~@", "`", "#inst ", '#"', "'", "#?(", "#?@(", ":lpy ", "#b ", "#queue ", "nil "]
+TOKENS_COND = ["#?(", "#?@(", ":clj ", ":lpy ", ":default ", "clj ", "1 ", "[", "]", ")", "("]
+
+
+def total_token_spec(tokens, tag, n, timeout, first):
+    args = ", ".join(f"i{j}: int" for j in range(n)) + ", n: int"
+    pre = [f"0 <= i{j} < {len(tokens)}" for j in range(n)] + [f"1 <= n <= {n}"]
+    pre[0] = f"i0 == {first}"
+    code = f"""TOK = {tokens!r}
+def pick(i):
+    for k in range(len(TOK)):
+        if i == k:
+            return TOK[k]
+    return ""
+def build({', '.join('i%d' % j for j in range(n))}, n):
+    out = ""
+    for j, i in enumerate([{', '.join('i%d' % j for j in range(n))}]):
+        if j < n:
+            out += pick(i)
+    return out
+"""
+    call = "build(" + ", ".join(f"i{j}" for j in range(n)) + ", n)"
+    body = f'''    s = {call}
+    c = classify(s)
+    if c[0] == "ok":
+        return all(only_data(f) for f in c[1])
+    return c[0] in ("eof", "syntax") and has_loc(c[1])'''
+    src = harness(args, body, pre=pre, module_code=COMMON + code, warm=[])
+    return Spec(f"total/{tag}-tokens/len<={n}/first=#{first}:{tokens[first].strip()!r}", src, timeout=timeout,
+                bound=f"every string of <= {n} tokens over {[t.strip() for t in tokens]!r}", meta={"kind": "total"})
+
+
 EOF_CODE = r'''
 import itertools
 CLOSE = {"(": ")", "[": "]", "{": "}"}
@@ -278,6 +312,8 @@ def run(rep, tier, seed):
         specs.append(total_unicode_spec(1, 1500))
     na, ne, ns = (2, 2, 3) if quick else (3, 4, 4)
     specs += [total_alpha_spec(na, to, f) for f in range(len(ALPHA_DELIM))]
+    specs += [total_token_spec(TOKENS_DISPATCH, "dispatch", 2 if quick else 3, to * 2, f) for f in range(len(TOKENS_DISPATCH))]
+    specs += [total_token_spec(TOKENS_COND, "reader-conditional", 4 if quick else 5, to * 2, f) for f in (0, 1, 7, 10)]
     specs += [eof_spec(ne, to, f) for f in range(len(ALPHA_EOF))]
     specs += [span_spec(ns, to, f) for f in range(len(ALPHA_SPAN))]
     specs += [newline_spec(4 if quick else 5, to * 2, f) for f in range(len(ALPHA_NL))]
@@ -286,7 +322,7 @@ def run(rep, tier, seed):
     rep.bounds = {"unicode": "thorough only: all strings of <= 1 / <= 2 code points (CrossHair needs > 150 s for one symbolic character: the reader classifies characters with regexes)",
                   "delimiter alphabet": f"{len(ALPHA_DELIM)} characters, length <= 3 (quick) / 5 (thorough)",
                   "eof": "length <= 3 / 5", "spans": "<= 4 / 5 tokens incl. CR, CRLF, LF and a multi-byte character"}
-    rep.outside = ["longer inputs", "syntax-quoted forms' locations", "data readers / reader conditionals with custom features",
+    rep.outside = ["longer inputs", "syntax-quoted forms' locations", "data readers with custom tags / reader conditionals with custom features",
                    "the REPL (prompt.py) is not executed: only the exception class it keys on"]
     rep.assumptions += ["re, unicodedata and io.StringIO are environment (CrossHair models or realises)",
                         "EOF oracle is metamorphic (real reader only): EOF => some continuation changes the verdict; malformed => no continuation starting a new token makes the text readable"]
